@@ -32,6 +32,7 @@ def main():
     allp = "--all-props" in sys.argv
     bad = 0
     for src in args:
+        src = os.path.abspath(src)
         name = os.path.basename(src.rstrip("/"))
         d = tempfile.mkdtemp(prefix="verif-rf-", dir="/dev/shm")
         dst = os.path.join(d, "repo")
